@@ -77,6 +77,24 @@ fn zone_choices(rng: &mut Rng) -> Vec<u8> {
 }
 
 fn some_text_name(rng: &mut Rng) -> Vec<u8> {
+    // the table takes (pointer, length): a NUL inside or at the end of the text is a byte like any other, and
+    // whatever the native call makes of it the table must do the same
+    if rng.chance(1, 8) {
+        let mut n = plain_text_name(rng);
+        match rng.below(4) {
+            0 => n.insert(0, 0),
+            1 => {
+                let at = rng.below(n.len() + 1);
+                n.insert(at, 0)
+            }
+            _ => n.push(0),
+        }
+        return n;
+    }
+    plain_text_name(rng)
+}
+
+fn plain_text_name(rng: &mut Rng) -> Vec<u8> {
     match rng.below(8) {
         0 => b"a..b".to_vec(),
         1 => vec![b'x'; 70],
